@@ -459,7 +459,8 @@ def run_volt(ctx, cases):
                         ctx.impl_violation("background-propagation", "%s: antenna stream's background deviation %r differs from the background stream's %r" % (where, bg, fh(row["bgsrc"][p])), c)
                     if mrows is not None:
                         mown, mbg, mtot = mrows[k]
-                        if f2(mown[a]) != own or f2(mbg) != bg or f2(mtot[a]) != tot:
+                        # `x**2` on numpy scalars goes through libm's pow, which is not guaranteed correctly rounded: allow a few ulps
+                        if not (close(f2(mown[a]), own, 1e-15) and close(f2(mbg), bg, 1e-15) and close(f2(mtot[a]), tot, 1e-15)):
                             ctx.mismatch("%s: binary64 model own/bg/total %r/%r/%r, implementation %r/%r/%r" % (where, f2(mown[a]), f2(mbg), f2(mtot[a]), own, bg, tot), c)
             if "emp" in r:
                 for a in range(c["nant"]):
@@ -489,7 +490,7 @@ def run(ctx):
                        "conditional on it; the statistical runs sample it at %.1f sigma (exploration, not proof)" % SIGMA,
                        "the recording generator subclasses numpy.random.Generator and delegates every call, so the bit stream is the real one",
                        "sigma-clipped re-estimates are compared with an independent reference within 1e-9 relative (2e-5 for float32 data)",
-                       "sqrt in the quadrature sums is numpy's; the theorem tracks variances exactly, the binary64 twin reproduces the implementation's roundings"]
+                       "sqrt in the quadrature sums is numpy's and x**2 is libm's pow; the theorem tracks variances exactly, the binary64 twin (x*x, sqrt) is compared to 1e-15 relative"]
     cp = corpus()
     run_frames(ctx, cp.get("frame", []) + [gen_frame_case(rng) for _ in range(160 if quick else 3000)])
     run_snr(ctx, 60 if quick else 1500)
